@@ -1,8 +1,8 @@
 /*
  * C13: "for any content of the three configuration files ... starting the library terminates and returns 0 or 1 without crashing".
  *
- * Four configurations that differ from test/unit/state_tests_config in one entry whose first key is not `id`
- * (a board point, a peripheral, a DCC point, a train peripheral with the keys in another order).  The parser rejects the
+ * Five configurations that differ from test/unit/state_tests_config in one entry whose first key is not `id`
+ * (a board point, a peripheral, a DCC point, a train peripheral with the keys in another order; the second aspect of a DCC point with a misspelt first key).  The parser rejects the
  * entry, but has already appended the half-built record - with NULL pointer members - to its list; the clean-up of the
  * failed start then walks that list.
  *
@@ -43,10 +43,10 @@ static int probe(const char *dir) {
 
 int main(int argc, char **argv) {
 	const char *base = argc > 1 ? argv[1] : "findings/C13-null-aspects";
-	const char *variants[] = {"cfg_point", "cfg_peripheral", "cfg_dccpoint", "cfg_trainperiph"};
+	const char *variants[] = {"cfg_point", "cfg_peripheral", "cfg_dccpoint", "cfg_trainperiph", "cfg_dccaspect"};
 	int rc = 0;
 	char path[512];
-	for (int i = 0; i < 4; i++) {
+	for (int i = 0; i < 5; i++) {
 		snprintf(path, sizeof(path), "%s/%s", base, variants[i]);
 		rc |= probe(path);
 	}
